@@ -25,6 +25,22 @@ CLAIMED = {
    text="6 kernel-checked theorems (Props/C20.lean) about the structural model of find_diff_start/find_diff_end (UTF-16 units); the real functions are run on self pairs, JSON-rebuilt copies, before/after pairs of random edits (sharing nodes by identity) and unrelated documents, each call under a 2 s alarm, and compared with the model and with an lcp/lcs oracle over to_json().",
    note="Trusted: Lean kernel, model lean/PM/Diff.lean tied by sampling, harness. Termination of the Python loops cannot be a theorem about a total Lean function: it is decided by the alarm (a hang is a violation with the pair as replay). Guard: documents in normal form (no empty text, adjacent same-markup text merged), which every library constructor maintains.",
    design="§5 C20"),
+
+ "C01": dict(
+   technique="Lean 4 theorem apply_valid: for every schema, valid document and step of the eight kinds with a valid payload, whatever apply returns is valid (via replace_valid: every rebuilt node passes close; mark steps via C14 canonicity); exact differential correspondence of Step.apply incl. JSON-decoded steps; check()+independent spec validator as oracle",
+   text="10 kernel-checked theorems (Props/C01.lean; ~2400 lines in Proofs/ReplaceValid.lean, Proofs/StepValid.lean) over the executable model of the eight step kinds; validity is the model of Node.check (content automaton, mark permissions, canonical mark sets, recursively). The model is tied to the code by running both on generated (schema, document, step) cases incl. plausible-but-wrong wrappers and JSON-decoded steps; an independent validator derived from the schema spec (content expressions as Python regexes) checks every returned document; any non-ValueError exception is a violation.",
+   note="Trusted: Lean kernel, model lean/PM/{Step,Replace,Content,Marks}.lean tied by sampling, harness + spec validator. Guards of the theorem: payload validity (`openValid`: nodes off the open spines valid; for replace-around stated on the slice after gap insertion), `TextStable` for mark steps (merging adjacent text must not change what the parent's automaton accepts — true of every `text*`/`inline*` style expression; the exotic excluded shape is described in DESIGN.md). 'Never dies with an internal error' is decided by correspondence/search, not by a theorem.",
+   design="§5 C01"),
+ "C07": dict(
+   technique="Lean 4 theorems: valid_content / check / can_replace / can_replace_with / can_append equal the definition of validity over the spliced child sequence (automaton run over concatenation, mark permissions, canonical marks); exact differential correspondence over all child index ranges; independent spec validator (regex over content expressions) as oracle, with mutated invalid documents",
+   text="11 kernel-checked theorems (Props/C07.lean) for arbitrary automata and nodes; exact correspondence of the six predicates on generated nodes, index ranges, replacement fragments and candidate types every run; the independent validator decides the expected answer from the schema spec.",
+   note="Trusted: Lean kernel, model lean/PM/Content.lean tied by sampling, harness, spec validator (Python re). The automaton is data dumped from the running code; its agreement with the content expression is C06's subject.",
+   design="§5 C07"),
+ "C09": dict(
+   technique="Lean 4 theorems: resolve is total on 0..size, depth = unmatched opens, ancestor chain, start/end/before/after delimit exactly the ancestor's tokens, offsets, node_at, text_between = text units of the token window, nodes_between positions, marks(), shared depth; exact differential correspondence of every accessor at every position; token-picture oracle",
+   text="16 kernel-checked theorems (Props/C09.lean) relating the path-based model of ResolvedPos and the traversal functions to the flat UTF-16 token sequence for unbounded documents; every accessor of the real code is compared with the model at every pair-aligned position of generated documents (astral text, non-inclusive marks) and with quantities recomputed from to_json() tokens.",
+   note="Trusted: Lean kernel, model lean/PM/Resolve.lean tied by sampling, harness. block_range/NodeRange, marks_across, child_after/before and range_has_mark are tied by exact correspondence/oracle only (no theorem yet). nodeAt_spec carries the guard 'node size ≠ 0' (empty text nodes do not exist in the library).",
+   design="§5 C09"),
 }
 
 NOT_YET = {
